@@ -29,7 +29,7 @@ ASSUMPTIONS = [
     'relativeReference / DataReference.resolve) computes from the reference and the walked file system is checked inside '
     'Coq for every distinct reference of the run (check_dref); the real DataReference objects are compared with that model '
     'on a separate pool (check_value: every file part x method x producer of the pool)',
-    'ValueModel does not cover loopref / loopoutput, glob patterns or ".." in file parts, symbolic links, non-ASCII file '
+    'ValueModel does not cover glob patterns or ".." in file parts, symbolic links, non-ASCII file '
     'contents; repeating producers: 9 of the 24 producers repeat (workflowAttributes.repeatInterval; checked against the real '
     'workflowAttributes), their streams directories are written by the harness (indices of different numbers of digits, streams '
     'of the other type, none, no directory) and, in the sessions, by the real experiment.runtime.engine.archive_stream called as '
@@ -47,8 +47,19 @@ ASSUMPTIONS = [
     'replaced by a directory between two resolutions; all four entry points are called at every step; the file system given '
     'to the model is walked from the instance just before the calls; Job.command.arguments is read without the shell '
     'expansion of Command.commandLine',
-    'only ref / output / copy references are generated (loopref / loopoutput need DoWhile placeholders); copy '
-    'references are declared but never written in the arguments; no reference is declared twice',
+    'in the 24-producer instances only ref / output / copy references are generated; copy references are declared but never '
+    'written in the arguments; no reference is declared twice',
+    'DoWhile loops (harness/c10_loops.py): one document imported in stage 1 (looped components step, mon - repeating -, check, '
+    'and late in the second stage of the document), advanced 2-6 iterations with the real '
+    'WorkflowGraph.instantiate_dowhile_next_iteration; consumers outside the loop (stage 1 next to it, stage 2 after it) '
+    'reference the PLACEHOLDERS through ref / output / loopref / loopoutput with and without file part, always in the absolute '
+    'spelling (the loader rejects the relative spelling of a placeholder in the arguments); the files of the iterations are '
+    'written by the harness (empty, only newlines, several lines, missing, a directory; streams directories of the repeating '
+    'looped component), earlier iterations are sometimes rewritten; the model is given the instances in the order '
+    'WorkflowGraph._placeholders lists them; files read through loopoutput hold no carriage return (text mode translates them); '
+    'when two or more iterations of a loopoutput reference cannot be read resolveArguments raises InternalInconsistencyError '
+    '(model: None) and ComponentSpecification.command.arguments (ignoreErrors=True) substitutes the empty string - that entry '
+    'point is then compared with the Python oracle only',
     'instance paths are rewritten to /I before comparing (they contain no colon, so no spelling)',
 ]
 HEADER = 'Require Import V.Lib.PyStr V.Args.Model.\nOpen Scope string_scope.'
@@ -1154,7 +1165,11 @@ def run(ctx):
                 'an input file - in the random sets and as a systematic family (every producer x every spelling); (d) sessions: '
                 'consumers with an :output reference (mostly to another stage / an input file) resolved 3-5 times on ONE live '
                 'graph through 4 entry points while the referenced files are rewritten / created / deleted / made a directory; '
-                'non-trivial = the expected answer changes at least once')
+                'non-trivial = the expected answer changes at least once; (e) DoWhile loops: worlds with a loop advanced 2-6 '
+                'iterations (one fixed boundary world: iterations that print nothing / only newlines / not yet), ~22 outside consumers '
+                'each (5 fixed + random sets of <= 4 references to placeholders - ref / output / loopref / loopoutput, with / without '
+                'file part, a repeating looped component, a looped component of the second stage - and to ordinary producers), resolved '
+                'after EVERY iteration through the 4 entry points')
     cases = []
     for b in corpus():
         cases.extend(with_orders(b))
@@ -1189,6 +1204,8 @@ def run(ctx):
         for r in c['declared']:
             used[json.dumps([r['stage'], r['name'], r['file'], r['method']])] = r
     explore_values(ctx, used)
+    import c10_loops
+    c10_loops.explore_loops(ctx)
 
 
 def replay(ctx, path):
@@ -1197,7 +1214,10 @@ def replay(ctx, path):
     if not c or 'declared' not in c:
         print('replay file names no input (proof/correspondence obligation): re-run ./check C10')
         return 2
-    if 'streams' in c:
+    if 'loop' in c:
+        import c10_loops
+        c10_loops.explore_loops(ctx, only=c)
+    elif 'streams' in c:
         explore_values(ctx, {})
     elif 'live' in c:
         explore_live(ctx, [c])
